@@ -177,7 +177,12 @@ Inductive nsop :=
 | NGetPrefix (e : str)
 | NFetch                 (* GetGlobalContext(false): a new reader handle *)
 | NRead (h : nat)        (* the reader serialises the context it was given *)
-| NRestart.
+| NRestart
+| NCtxAll                (* a context served to a request: GET /namespaces, @context of a page of a dataset without
+                            publicNamespaces *)
+| NDsCtx (exps : list str)  (* @context of a page of a dataset whose publicNamespaces are [exps]: GetContext(exps) *)
+| NJsonLD.               (* a page rendered as JSON-LD: the handler adds the fixed prefixes core and rdf to ITS OWN
+                            copy of the context - no reader may see them *)
 
 Inductive nsout :=
 | OStr (s : str)
@@ -195,6 +200,12 @@ Definition read_handle (w : nsworld) (h : handle) : list (str * str) :=
   | HLive ep => if Nat.eqb ep (epoch w) then p2e (mem (nst w)) else nth ep (olds w) []
   end.
 
+(** GetContext(includedNamespaces): [filtered[prefix] = expansion] for every declared expansion, the prefix being
+    whatever the manager knows at this moment ("" when it knows none) *)
+Definition ctx_key (e : str) (st : nsstate) : str := match get_prefix e st with Some p => p | None => [] end.
+Definition ctx_of (exps : list str) (st : nsstate) : list (str * str) :=
+  fold_left (fun m e => sset (ctx_key e st) e m) exps [].
+
 Definition ns_step (a : alias_mode) (op : nsop) (w : nsworld) : nsworld * nsout :=
   match op with
   | NAssert e => let '(st, p) := assert_prefix e (nst w) in (with_st w st, OStr p)
@@ -211,6 +222,9 @@ Definition ns_step (a : alias_mode) (op : nsop) (w : nsworld) : nsworld * nsout 
   | NRestart =>
     ({| nst := ns_restart (nst w); epoch := S (epoch w);
         olds := olds w ++ [p2e (mem (nst w))]; handles := handles w |}, ONone)
+  | NCtxAll => (w, OCtx (p2e (mem (nst w))))
+  | NDsCtx exps => (w, OCtx (ctx_of exps (nst w)))
+  | NJsonLD => (w, ONone)
   end.
 
 Fixpoint ns_run (a : alias_mode) (ops : list nsop) (w : nsworld) : nsworld * list nsout :=
@@ -235,4 +249,18 @@ Fixpoint snapshot_ok (fetched : list nsout) (evs : list (nsop * nsout)) : bool :
      | _, _ => false
      end) && snapshot_ok fetched evs'
   | _ :: evs' => snapshot_ok fetched evs'
+  end.
+
+(** no stale context: once a namespace has been given its prefix, every later context of a dataset that
+    declares it shows it under that prefix *)
+Definition has_mapping (m : list (str * str)) (p e : str) : bool :=
+  match slookup p m with Some e' => str_eqb e' e | None => false end.
+Fixpoint dsctx_ok (known : list (str * str)) (evs : list (nsop * nsout)) : bool :=
+  match evs with
+  | [] => true
+  | (NAssert e, OStr p) :: r => dsctx_ok ((p, e) :: known) r
+  | (NDsCtx exps, OCtx m) :: r =>
+    forallb (fun pe => negb (existsb (str_eqb (snd pe)) exps) || has_mapping m (fst pe) (snd pe)) known
+    && dsctx_ok known r
+  | _ :: r => dsctx_ok known r
   end.
